@@ -108,7 +108,14 @@ def vacuity_twins(tpath, g, workdir, uname, rlimit):
                 spec_b = j
             j += 1
         end = j
-        if spec_a is None:
+        name0 = unit._kv(tl[start])
+        fname0 = name0.get('rename', name0['name'])
+        marker = [k for k, l in enumerate(tl) if l.strip() == '//@vacuity ' + fname0]
+        if marker:
+            # trait-impl method whose contract lives on a (re-declared) trait: the marker line sits inside that
+            # method's trait-level `ensures` list and becomes `false,` in the twin
+            new = tl[:marker[0]] + ['            false,'] + tl[marker[0] + 1:]
+        elif spec_a is None:
             new = tl[:end] + ['//@spec', ' ensures false,'] + tl[end:]
         else:
             if spec_b is None:
